@@ -86,6 +86,15 @@ CHECKS = {
        "all literals up to a length bound, all expression lists in 12 multi-value contexts, and ~50k multi-line programs with one offending token (error line) are compared",
   note="bounded tree size / literal length; message wording not compared (only the line number); a float numeral is assumed to denote the nearest double; open finding C12-5",
   technique="TLA+ specs Syntax.tla + StrLex.tla evaluated exhaustively by TLC, expected values compared with the real front end through generated chunks (direction A)"),
+ "C18": dict(
+  level="model_checking", ref="5 C18",
+  text="GCGen.tla generates scripts (create tables / userdata with __gc, resurrecting __gc, Go-side releasable values; drop references; force collection; enter and leave "
+       "limited contexts normally / by error / by kill, nested) which are rendered as Lua programs; the events of the real run (every __gc call, every ReleaseResources call of a "
+       "driver-provided userdata, context boundaries) are validated by TLC against GCTrace.tla: a finaliser runs at most once and never while the value is reachable, except when "
+       "its context or the runtime closes, where all pending ones run in reverse order of marking; release exactly once and after the finaliser, also after a kill (which skips "
+       "finalisers); finalisers run inside the context that created the value; at leave/close nothing is missing",
+  note="when the Go collector reports a value unreachable is left open (may/must semantics); values are not re-marked; runtime/internal/luagc is driven through the Runtime API only",
+  technique="TLA+ specs GCGen.tla (scripts, direction A) and GCTrace.tla (TLC validation of recorded event traces, direction B)"),
  "C19": dict(
   level="model_checking", ref="5 C19 and notes/C19.md",
   text="StrLib.tla / TabLib.tla state the manual's definitions of sub, byte, char, rep, reverse, upper, lower, len, plain find and of insert, remove, move, concat, unpack, pack "
